@@ -194,6 +194,7 @@ func VerifC01_DubboSlow() {
 		return
 	}
 	wire := out.Bytes()
+	verif.Cover("end") // before the assertions: a known finding ends the path at its assertion
 	verif.Assert(len(wire) == HeaderLen+len(nb), "wire length is not header + new body")
 	if len(wire) != HeaderLen+len(nb) {
 		return
@@ -210,7 +211,6 @@ func VerifC01_DubboSlow() {
 		diff |= wire[HeaderLen+i] ^ nb[i]
 	}
 	verif.Assert(diff == 0, "re-encoded frame is not the modified frame (magic/flag/status, id, length, new body)")
-	verif.Cover("end")
 }
 
 // VerifC02_DubboIDWidth: the id handed to the stream table by
